@@ -72,6 +72,7 @@ class ImmutableKnotVector(tuple):
         return instance
 
     def __add__(self, nodes: Tuple[float]) -> ImmutableKnotVector:
+        nodes = tuple(nodes)
         umin, umax = self.limits
         for node in nodes:
             if node < umin or umax < node:
@@ -157,6 +158,16 @@ class ImmutableKnotVector(tuple):
     def __mult_single(self, node: Tuple[float]) -> Tuple[int]:
         return sum(abs(node - knot) < 1e-9 for knot in self)
 
+    @staticmethod
+    def __as_tuple(nodes):
+        """A one-shot iterable of nodes is read once: keep what it gives"""
+        if isinstance(nodes, str):
+            return nodes
+        try:
+            return tuple(nodes)
+        except TypeError:
+            return nodes
+
     def __valid_single(self, node: float) -> bool:
         try:
             float(node)  # Verify if it's a number
@@ -168,6 +179,7 @@ class ImmutableKnotVector(tuple):
         return True
 
     def span(self, nodes: Union[float, Tuple[float]]) -> Union[int, Tuple[int]]:
+        nodes = self.__as_tuple(nodes)
         if not self.valid(nodes):
             raise ValueError
         try:
@@ -176,6 +188,7 @@ class ImmutableKnotVector(tuple):
             return self.__span_single(nodes)
 
     def mult(self, nodes: Union[float, Tuple[float]]) -> Union[int, Tuple[int]]:
+        nodes = self.__as_tuple(nodes)
         if not self.valid(nodes):
             raise ValueError
         try:
